@@ -142,7 +142,10 @@ class Ctx:
             "wall_s": round(wall, 2),
             "violations": nviol,
         }
-        path = os.path.join(VERIF, "evidence", "%s.json" % self.pid)
+        # VERIF_EVIDENCE_DIR: only for self-tests against scratch copies (seeded changes), so that
+        # such runs never overwrite the evidence of the real tree
+        path = os.path.join(os.environ.get("VERIF_EVIDENCE_DIR") or os.path.join(VERIF, "evidence"),
+                            "%s.json" % self.pid)
         os.makedirs(os.path.dirname(path), exist_ok=True)
         with open(path, "w") as f:
             json.dump(ev, f, indent=1, ensure_ascii=True, default=str)
